@@ -1,5 +1,7 @@
 use crate::runner::Ctx;
 
+pub mod c01;
+pub mod c05;
 pub mod c06;
 pub mod c07;
 pub mod c09;
@@ -11,6 +13,8 @@ pub mod c18_sessions;
 /// dispatch; false if the id is unknown
 pub fn run(ctx: &Ctx) -> bool {
     match ctx.prop.as_str() {
+        "C01" => c01::run(ctx),
+        "C05" => c05::run(ctx),
         "C06" => c06::run(ctx),
         "C07" => c07::run(ctx),
         "C09" => c09::run(ctx),
